@@ -29,6 +29,7 @@ deriving Repr, DecidableEq
 
 inductive Err where
   | enoent | eexist | enomem
+  | ecb      -- hawk_htb_cbsert: the callback returned HAWK_NULL on its own account (no error number of htb's)
 deriving Repr, DecidableEq
 
 /-- allocator oracle: answers for successive allocation requests; exhausted = success -/
@@ -168,6 +169,46 @@ def insertG (c : Cfg) (t : Htb) (k v : Nat) (opt : Opt) (o : Oracle) : Res :=
       | (true, o2) =>
         ⟨{ t1 with buckets := t1.buckets.set hc1 ((k, v) :: bucketAt t1 hc1), size := t1.size + 1 },
           .ok (k, v), [], o2⟩
+
+/-- what a `hawk_htb_cbserter_t` callback does, as far as the table can tell: it is handed the existing
+    pair (or HAWK_NULL) and answers HAWK_NULL (`fail`), the very same pair (`keep`, only possible when there
+    is one), or a pair it allocated itself with hawk_htb_allocpair for the value `v` after destroying the
+    old one with hawk_htb_freepair (`fresh v`) -/
+inductive CbAns where
+  | fail
+  | keep
+  | fresh (v : Nat)
+deriving Repr, DecidableEq
+
+/-- hawk_htb_cbsert: `f` is the callback as a function of the value currently stored under `k` -/
+def cbsert (c : Cfg) (t : Htb) (k : Nat) (f : Option Nat → CbAns) (o : Oracle) : Res :=
+  let hc := c.hash k % t.capa
+  match chainFind k (bucketAt t hc) with
+  | some p =>
+    match f (some p.2) with
+    | .fail => ⟨t, .error .ecb, [], o⟩
+    | .keep => ⟨t, .ok p, [], o⟩                     -- `p == pair`: nothing to relink
+    | .fresh v =>
+      -- the callback: hawk_htb_allocpair (one allocation request), then hawk_htb_freepair(old);
+      -- cbsert: "old pair destroyed. new pair reallocated. relink" — position in the chain kept
+      match o.next with
+      | (false, o') => ⟨t, .error .enomem, [], o'⟩
+      | (true, o') =>
+        ⟨{ t with buckets := t.buckets.set hc (chainSet k v (bucketAt t hc)) }, .ok (k, v),
+          [.freedK k, .freedV p.2], o'⟩
+  | none =>
+    let r := if t.threshold > 0 ∧ t.size ≥ t.threshold then reorganize c t o else (t, false, o)
+    let t1 := r.1
+    let hc1 := if r.2.1 then c.hash k % t1.capa else hc
+    -- `pair = cbserter(htb, HAWK_NULL, kptr, klen, ctx)` after the optional reorganization
+    match f none with
+    | .fresh v =>
+      match r.2.2.next with
+      | (false, o2) => ⟨t1, .error .enomem, [], o2⟩
+      | (true, o2) =>
+        ⟨{ t1 with buckets := t1.buckets.set hc1 ((k, v) :: bucketAt t1 hc1), size := t1.size + 1 },
+          .ok (k, v), [], o2⟩
+    | _ => ⟨t1, .error .ecb, [], r.2.2⟩
 
 def upsert (c : Cfg) (t : Htb) (k v : Nat) (o : Oracle) : Res := insertG c t k v .upsert o
 def update (c : Cfg) (t : Htb) (k v : Nat) (o : Oracle) : Res := insertG c t k v .update o
